@@ -1,0 +1,109 @@
+//go:build verif
+
+package jxpath
+
+// Contracts for package jxpath (XPath-style number and date formatting), checked by /verif/govc.
+// Comment-only file behind the build tag verif.
+
+//@ props C18 C09
+
+// --- C18: grouping separators of $formatNumber ------------------------------------------------------------------------------
+// indexInt: position of the first occurrence, -1 exactly when absent
+//@ func indexInt
+//@   ensures [C18:found-is-first-occurrence] result >= 0 ==> (result < len(values) && values[result] == want && (forall k in [0, result): values[k] != want))
+//@   ensures [C18:absent-iff-minus-one] (result == -1) <==> (forall k in [0, len(values)): values[k] != want)
+//@   ensures result >= -1
+//@   assigns nothing
+//@   loop 0 invariant -1 <= $i0 && (forall k in [0, $i0 + 1): values[k] != want)
+
+// gcd terminates (Euclid: the second argument's magnitude decreases) and gcdOf folds it over the values
+//@ func gcd
+//@   requires a > MinInt64 && b > MinInt64
+//@   ensures (a >= 0 && b > 0) ==> (0 < result && result <= b)
+//@   ensures b == 0 ==> result == a
+//@   ensures result > MinInt64
+//@   assigns nothing
+//@   decreases[gcd] (b < 0 ? -b : b)
+//@ func gcdOf
+//@   opaque-arith
+//@   requires forall k in [0, len(values)): (0 <= values[k] && values[k] <= 1073741824)
+//@   ensures 0 <= result && result <= 1073741824
+//@   assigns nothing
+//@   loop 0 invariant -1 <= $i0 && 0 <= res && res <= 1073741824
+
+// getGroupSize: the grouping is regular - one separator every `result` digits - when every multiple factor, 2*factor,
+// ..., len*factor of the positions' greatest common divisor is among the separator positions: each of them is looked
+// up (indexInt) and a single absent one makes the grouping irregular (0: positions used as given)
+//@ func getGroupSize
+//@   requires len(positions) <= 1073741824 && (forall k in [0, len(positions)): (0 <= positions[k] && positions[k] <= 1073741824))
+//@   ensures [C18:no-separators-no-grouping] len(positions) == 0 ==> result == 0
+//@   ensures [C18:regular-size-is-the-gcd] result != 0 ==> result == ret("gcdOf#0", 0)
+//@   ensures result >= 0
+//@   assigns nothing
+//@   atcall[C18:every-multiple-looked-up] indexInt#0 requires callee_values == positions && callee_want == factor * (i + 1)
+//@   atif[C18:absent-multiple-means-irregular] "indexInt(positions, factor * (i + 1)) == -1" iff ret("indexInt#0", 0) == -1
+//@   loop 0 calls [C18:all-multiples-checked] indexInt#0
+//@   loop 0 invariant 0 <= i && i <= len(positions) && factor == ret("gcdOf#0", 0) && 0 <= factor && factor <= 1073741824
+
+// runeCountInStringFunc: how many code points of s satisfy f (f is an arbitrary function value: only the bounds are claimed)
+//@ func runeCountInStringFunc
+//@   requires f != nil
+//@   ensures 0 <= result && result <= len(s)
+//@   assigns assumed nothing
+//@   loop 0 invariant 0 <= $pos && $pos <= len(s) && 0 <= count && count <= $pos
+
+// splitStringAtByte / splitStringAtRune: the two sides of the single separator; both empty when it occurs twice
+//@ func splitStringAtByte
+//@   ensures [C18:no-separator] ret("strings.IndexByte#0", 0) == -1 ==> (same(r0, s) && len(r1) == 0)
+//@   ensures len(r0) <= len(s) && len(r1) <= len(s)
+//@   assigns nothing
+
+// insertSeparatorsAt: the digit string is cut after the given numbers of code points (from the left, or counted from
+// the right), each cut made by decoding that many code points from the current position; the pieces are joined with
+// the separator. Positions that run past the end must not make a cut outside the string.
+//@ func insertSeparatorsAt
+//@   opaque-arith
+//@   requires forall k in [0, len(positions)): positions[k] >= 0
+//@   atcall[C18:joined-with-the-separator] strings.Join#0 requires len(callee_arg0) == len(positions) + 1
+//@   loop 0 invariant -1 <= $i0 && len(chunks) == $i0 + 1 && cap(chunks) >= len(positions) + 1 && len(s) <= len(integer)
+//@   loop 1 invariant 0 <= pos && pos <= len(s) && -1 <= $i0 && len(chunks) == $i0 + 1 && cap(chunks) >= len(positions) + 1 && len(s) <= len(integer)
+//@   loop 1 decreases n
+
+// FormatNumber: with an exponent picture the mantissa is scaled into range on its *magnitude* and never for zero
+// (the two scaling loops make progress only then: `value *= 10` cannot raise 0 and moves a negative value away
+// from the bound). Termination of the two floating-point loops themselves is not proved (no integer measure).
+//@ func processPicture
+//@   assigns nothing
+//@   trusted
+//@ func round
+//@   assigns nothing
+//@   trusted
+//@ func makeNumberString
+//@   requires format != nil
+//@   assigns nothing
+//@   trusted
+//@ func formatIntegerPart
+//@   requires vars != nil && format != nil
+//@   assigns nothing
+//@   trusted
+//@ func formatFractionalPart
+//@   requires vars != nil && format != nil
+//@   assigns nothing
+//@   trusted
+//@ func formatExponentPart
+//@   requires vars != nil && format != nil
+//@   assigns nothing
+//@   trusted
+//@ func FormatNumber
+//@   abstract-float
+//@   ensures [C18:empty-picture-is-error] len(picture) == 0 ==> r1 != nil
+//@   ensures [C18:picture-error-propagates] (len(picture) != 0 && ret("processPicture#0", 1) != nil) ==> (r1 == ret("processPicture#0", 1) && len(r0) == 0)
+//@   atif[C18:zero-is-not-scaled] "value != 0" iff !(value == 0.0)
+//@   atif[C18:scaled-up-on-the-magnitude] "math.Abs(value) < minMantissa" iff ret("math.Abs#0", 0) < minMantissa
+//@   atif[C18:scaled-down-on-the-magnitude] "math.Abs(value) > maxMantissa" iff ret("math.Abs#1", 0) > maxMantissa
+//@   atcall[C18:magnitude-of-the-current-value] math.Abs#0 requires same(callee_arg0, value)
+//@   atcall[C18:magnitude-of-the-current-value] math.Abs#1 requires same(callee_arg0, value)
+//@   loop 0 invariant !(value == 0.0) || true
+//@   loop 1 invariant true
+
+// END OF CONTRACTS (package jxpath)
